@@ -3,6 +3,7 @@ package ksim
 import (
 	"context"
 	"fmt"
+	"k8s.io/apimachinery/pkg/labels"
 	"strings"
 
 	corev1 "k8s.io/api/core/v1"
@@ -51,11 +52,11 @@ func (m *snapMap) del(k ObjKey) {
 // Handle is an actor-tagged client.  When cache != nil reads are served from it
 // (controller processes); otherwise from the authoritative store.
 type Handle struct {
-	sim    *Sim
-	actor  string
-	proc   *Process // nil for env/user
-	faulty bool     // writes of this handle are fault-eligible and pre-emptible
-	noYield bool    // never park inside a call (the caller holds a lock of a third-party library)
+	sim     *Sim
+	actor   string
+	proc    *Process // nil for env/user
+	faulty  bool     // writes of this handle are fault-eligible and pre-emptible
+	noYield bool     // never park inside a call (the caller holds a lock of a third-party library)
 }
 
 var _ client.Client = &Handle{}
@@ -64,7 +65,7 @@ func (s *Sim) NewHandle(actor string, proc *Process, faulty bool) *Handle {
 	return &Handle{sim: s, actor: actor, proc: proc, faulty: faulty}
 }
 
-func (h *Handle) Scheme() *runtime.Scheme { return h.sim.Store.Scheme }
+func (h *Handle) Scheme() *runtime.Scheme     { return h.sim.Store.Scheme }
 func (h *Handle) RESTMapper() meta.RESTMapper { return h.sim.mapper }
 
 func (h *Handle) checkAlive() {
@@ -126,6 +127,9 @@ func (h *Handle) List(_ context.Context, list client.ObjectList, opts ...client.
 			lo.ApplyOptions(opts)
 			for _, k := range h.proc.cache.keys {
 				if k.GK != gk || (lo.Namespace != "" && k.NS != lo.Namespace) {
+					continue
+				}
+				if lo.LabelSelector != nil && !lo.LabelSelector.Matches(labels.Set(h.proc.cache.objs[k].GetLabels())) {
 					continue
 				}
 				rr := readRec{Obj: h.proc.cache.objs[k], Found: true}
